@@ -104,7 +104,10 @@ def read_report(path, kind):
         return None
     res = []
     for e in rep.get('failed', []):
-        res.append({'kind': kind, 'name': e.get('section') or e.get('function') or '?', 'message': e.get('message', ''),
+        name, msg = e.get('section') or e.get('function') or '?', e.get('message', '')
+        if msg.startswith(name + ': '):      # the translator's messages begin with the function they are about
+            msg = msg[len(name) + 2:]
+        res.append({'kind': kind, 'name': name, 'message': msg,
                     'lean_defs': e.get('lean_defs', []), 'replaced': e.get('replaced', [])})
     return res
 
